@@ -311,7 +311,7 @@ class Registered:
         self.hfs = []
         self.roots = []
         self.saved_cfg = None
-        self.calls = 0
+        self.counts = {}
 
     def __enter__(self):
         from pyroll.core import RollPass, ThreeRollPass, BaseRollPass, Transport, Unit, Config, root_hooks
@@ -341,21 +341,26 @@ class Registered:
                     if cycle:
                         return None
                     rp = self.roll_pass
-                    # deformation heating proportional to the roll force of the previous iteration (a persisted value)
-                    return rp.in_profile.temperature + c["gain"] * rp.roll_force
+                    # deformation heating growing with the roll force of the previous iteration (a persisted value);
+                    # bounded, so that the loop force -> temperature -> flow stress -> force has a gain
+                    # beta * dT * max(x / cosh(x)^2) <= 4e-3 * 150 * 0.45 = 0.27 whatever the size of the pass
+                    return rp.in_profile.temperature + c["dT"] * math.tanh(rp.roll_force / 1e5)
                 self._add(BaseRollPass.OutProfile.temperature, temperature)
                 root_hooks.append(BaseRollPass.OutProfile.temperature)
                 self.roots.append(BaseRollPass.OutProfile.temperature)
             if self.fault is not None:
-                exc = FAULT_TYPES[self.fault["type"]]
+                # a pass-through implementation (returns None = "ask the next one") in front of every candidate hook,
+                # counting its calls; the armed one raises at its k-th call
                 reg = self
-
-                def faulty(self):
-                    reg.calls += 1
-                    if reg.fault.get("k") is not None and reg.calls == reg.fault["k"]:
-                        raise exc(f"injected fault at call {reg.calls}")
-                    return None              # pass on to the next implementation
-                self._add(fault_hook(self.fault["hook"]), faulty, tryfirst=True)
+                self.counts = {key: 0 for key in FAULT_HOOKS}
+                for key in FAULT_HOOKS:
+                    def faulty(self, key=key):
+                        reg.counts[key] += 1
+                        f = reg.fault
+                        if f.get("k") is not None and f["hook"] == key and reg.counts[key] == f["k"]:
+                            raise FAULT_TYPES[f["type"]](f"injected fault at call {f['k']} of {key}")
+                        return None
+                    self._add(fault_hook(key), faulty, tryfirst=True)
             if self.case["via"] == "config":
                 self.saved_cfg = (Config.DEFAULT_MAX_ITERATION_COUNT, Config.DEFAULT_ITERATION_PRECISION)
                 Config.DEFAULT_MAX_ITERATION_COUNT = self.case["max_iter"]
@@ -497,7 +502,7 @@ def gen_case(rng):
     else:
         spec_in["flow_stress"] = rng.choice([100e6, 80e6])
     if rng.random() < 0.4:
-        models["temperature"] = {"gain": rng.choice([1e-4, 3e-4, 6e-4])}
+        models["temperature"] = {"dT": rng.choice([50.0, 100.0, 150.0])}
         if "flow_stress" in models:
             models["flow_stress"]["beta"] = rng.choice([2e-3, 4e-3])
     if rng.random() < 0.35 and not three:
@@ -508,6 +513,13 @@ def gen_case(rng):
     case["fault"] = {"hook": rng.choice(FAULT_HOOKS), "type": ftype, "u": round(rng.random(), 6)}
     if "flow_stress" not in models and rng.random() < 0.5:
         case["fault"] = {"missing": "flow_stress"}
+    if rng.random() < 0.5:
+        si = {"temperature": spec_in["temperature"] - rng.choice([60.0, 150.0])}
+        if "flow_stress" in spec_in and rng.random() < 0.7:
+            si = {"flow_stress": spec_in["flow_stress"] * rng.choice([0.8, 1.25])}
+        elif rng.random() < 0.3:
+            si = {"strain": 0.2, "length": 1.7}
+        case["second_input"] = si
     return case
 
 
@@ -698,15 +710,10 @@ def run_subunit_wrap(ctx, outcomes, lines, pending):
         if ch.unit in [c.unit for c in first_body]:
             break
         first_body.append(ch)
-    got = f"{len(first_body)} {'ok' if err is None or top.vectors else type(err).__name__}"
+    got = f"{len(first_body)} {'ok' if err is None else type(err).__name__}"
+    if err is not None and not (err.__cause__ is first_body[-1].error and str(first_body[-1].unit) in str(err)):
+        got += " (not chained to the sub-unit's exception / not naming the unit)"
     ctx.count("subunit-wrap")
-    if err is not None:
-        culprit = first_body[-1]
-        cause_ok = isinstance(err, RuntimeError) and err.__cause__ is culprit.error and str(culprit.unit) in str(err)
-        if not cause_ok:
-            report(ctx, "subunit-failure-not-wrapped", f"sub-unit {culprit.unit} raised {culprit.outcome}; the parent raised "
-                   f"{type(err).__name__}: {err} (cause {err.__cause__!r}) instead of a RuntimeError naming the unit, chained",
-                   {"subunits": outcomes})
     if ctx.model_available:
         lines.append("sub " + (",".join(o for o, _ in outcomes) or "-"))
         pending.append(("sub", got, {"subunits": outcomes}))
@@ -973,7 +980,11 @@ def diff_within(a, b, tol):
         if k.rsplit(".", 1)[-1] not in CURATED and not k.endswith((".cs.area", ".cs.width", ".cs.height")):
             continue
         if k not in a or k not in b or len(a[k]) != len(b[k]):
-            missing = missing or k
+            # Only the returned profile must carry the same set of values.  Inside the sequence a value may be present
+            # in one run only: e.g. the in profile a roll pass hands to its first disk element carries `velocity` from
+            # the pass's second iteration on, and a second solve needs one iteration only.
+            if k.startswith("returned."):
+                missing = missing or k
             continue
         for x, y in zip(a[k], b[k]):
             m = max(abs(x), abs(y))
@@ -1099,7 +1110,7 @@ def run_case(ctx, case, lines, pending):
             return
         C = copy.deepcopy(A)
         a1 = solve_rec(rec, A, ip())
-        n_calls = reg.calls
+        counts = dict(reg.counts)
         if a1.err is not None:
             ctx.count("unsolvable:" + type(_root_cause(a1.err)).__name__)
             ctx.case(_canon(case), nontrivial=False)
@@ -1116,6 +1127,10 @@ def run_case(ctx, case, lines, pending):
         check_frames(ctx, case, a1.frames, lines, pending, "fresh")
         if a1.warned:
             ctx.count("run-warned")
+        ctx.sample({"units": [u["type"] + (":" + u["groove"] if "groove" in u else "") for u in case["units"]],
+                    "in": case["in"]["kind"], "models": sorted(case["models"]), "prec": case["prec"], "max_iter": case["max_iter"],
+                    "via": case["via"], "solve_calls": len(a1.frames), "max_iterations_of_a_unit": max(len(f.vectors) for f in a1.frames),
+                    "warned_units": sum(1 for f in a1.frames if frame_warned(f))}, limit=4)
         # ---- an identical fresh sequence, and a deep copy taken before solving: bit-identical
         for tag, seq in (("fresh-2", build_sequence(case)), ("deepcopy", C)):
             b = solve_rec(rec, seq, ip())
@@ -1161,11 +1176,15 @@ def run_case(ctx, case, lines, pending):
             else:
                 ctx.count("fault:missing-" + fault["missing"])
                 after_abort(ctx, case, rec, E, e1, a1, ip, lines, pending)
-        elif n_calls > 0:
+        elif any(counts.values()):
+            if not counts.get(inj["hook"]):
+                inj["hook"] = next(h for h in FAULT_HOOKS if counts[h])      # the wanted hook is not evaluated in this sequence
+            n_calls = counts[inj["hook"]]
             k = 1 + int(fault.get("u", 0.0) * n_calls) if fault.get("k") is None else fault["k"]
             k = min(max(k, 1), n_calls)
             E = build_sequence(case)
-            reg.calls = 0
+            for h in reg.counts:
+                reg.counts[h] = 0
             reg.fault["k"] = k
             e1 = solve_rec(rec, E, ip(), expect_fault=True)
             reg.fault["k"] = None
@@ -1180,7 +1199,7 @@ def run_case(ctx, case, lines, pending):
                     ctx.count("fault:other-root-cause")
                 after_abort(ctx, case, rec, E, e1, a1, ip, lines, pending)
         else:
-            ctx.count("fault:hook-never-called")
+            ctx.count("fault:no-hook-called")
 
 
 def after_abort(ctx, case, rec, E, e1, a1, ip, lines, pending):
@@ -1270,7 +1289,7 @@ CORPUS = [
      "second_input": {"flow_stress": 80e6}},
     # thermally coupled feedback (force -> temperature -> flow stress -> force), tight precision, nested sequence
     {"in": {"kind": "square", "size": 30e-3, "length": 2.5, "strain": 0.3},
-     "models": {"flow_stress": {"beta": 4e-3}, "temperature": {"gain": 6e-4}},
+     "models": {"flow_stress": {"beta": 4e-3}, "temperature": {"dT": 150.0}},
      "units": [{"type": "pass", "groove": "oval", "scale": 1.0, "disks": 0, "rotation": False},
                {"type": "pipe", "duration": 0.5, "disks": 1},
                {"type": "seq", "units": [{"type": "rotator", "rotation": 90},
@@ -1300,7 +1319,7 @@ def run(ctx):
     lines, pending = [], []
     for sc in SCRIPT_CORPUS:
         run_scripted(ctx, sc, lines, pending)
-    for i in range(ctx.budget(150, 3000)):
+    for i in range(ctx.budget(300, 4000)):
         run_scripted(ctx, gen_script(ctx.rng), lines, pending)
     for outcomes in ([], [("o", "")], [("o", ""), ("o", ""), ("e", "ZeroDivisionError"), ("o", "")],
                      [("e", "AttributeError")], [("o", ""), ("e", "CustomError")]):
@@ -1311,11 +1330,11 @@ def run(ctx):
         run_subunit_wrap(ctx, outs, lines, pending)
     for case in CORPUS:
         run_case(ctx, case, lines, pending)
-    attempted = solved = 0
-    for i in range(ctx.budget(26, 600)):
-        case = gen_case(ctx.rng)
-        before = ctx.histogram.get("run-solved", 0)
-        run_case(ctx, case, lines, pending)
+    for i in range(ctx.budget(40, 600)):
+        run_case(ctx, gen_case(ctx.rng), lines, pending)
+    if ctx.histogram.get("real-cases", 0) > 10 and sum(v for k, v in ctx.histogram.items() if k.startswith(("unsolvable", "unbuildable"))) * 2 \
+            > ctx.histogram["real-cases"]:
+        ctx.tie_breaks.append("harness: more than half of the generated sequences could not be solved by the implementation")
     ctx.notes["within-ratio-max"] = round(ctx.notes.get("within-ratio-max", 0.0), 4)
     if not ctx.model_available:
         return
